@@ -41,7 +41,7 @@ CONSTANTS
    NPar,          \* number of Parameter objects (0: none); parameter p is referred to by the argument value 1000 + p
    ParKinds,      \* <<kind of parameter 1, ...>>, kind \in {"phase", "refl", "loss"} (how the adapter turns a value id into a number)
    ParInit,       \* <<initial value id of parameter 1, ...>>
-   ParVals,       \* value ids tried by SetPar (9 = a value that is invalid for the component)
+   ParVals,       \* value ids tried by SetPar (9 = a value that is invalid for the component, 10 = NaN: invalid for every component)
    DispArgs,      \* display option tuples tried: <<type, display_loss, show_values, label-length offset or 99 for None>>
    DispMin,       \* display calls only after at least this many calls
    ModeCap,       \* valid mode arguments tried are 0 .. min(nu, ModeCap) - 1
